@@ -193,6 +193,34 @@ def drop_oracle(c, lines):
     return fails
 
 
+def red_oracle(c, run):
+    """RED's three regions, recomputed from the average the port publishes and the draw it consumed"""
+    fails = []
+    if c['mode'] != 'red':
+        return fails
+    from vlib.util import unbits
+    for act, ob in zip(run.acts, run.obs):
+        if not act.startswith('put ') or ' | ' not in ob:
+            continue
+        head, snap = ob.split(' | ')
+        f = dict(kv.split('=') for kv in snap.split(' ') if '=' in kv)
+        avg = unbits(int(f['avg'])); draw = unbits(int(act.split(' ')[4]))
+        dropped = head == 'put drop'
+        if avg >= c['qlimit']:
+            want = True
+        elif avg >= c['max_th']:
+            want = draw <= c['max_p']
+        elif avg >= c['min_th']:
+            want = draw <= (avg - c['min_th']) / (c['max_th'] - c['min_th']) * c['max_p']
+        else:
+            want = False
+        if want != dropped:
+            fails.append({'what': f'RED: average {avg}, thresholds min {c["min_th"]} max {c["max_th"]} qlimit {c["qlimit"]}, max_p {c["max_p"]}, '
+                                  f'draw {draw}: packet was {"dropped" if dropped else "accepted"}', 'signature': 'red-region'})
+            break
+    return fails
+
+
 def run(ctx):
     rng = random.Random(f'C09-{ctx.seed}')
     if ctx.replay:
@@ -226,7 +254,7 @@ def run(ctx):
             i = next((i for i in range(max(len(a), len(b or []))) if i >= len(a) or not b or i >= len(b) or a[i] != b[i]), 0)
             dis.append({'case': c, 'detail': f'line {i}: impl `{a[i] if i < len(a) else None}` model `{b[i] if b and i < len(b) else None}`',
                         'impl': a[:300], 'model': (b or [])[:300]})
-        for f in oracle(c, r) + drop_oracle(c, a):
+        for f in oracle(c, r) + drop_oracle(c, a) + red_oracle(c, r):
             f['case'] = c; f['trace'] = a[:300]
             orc.append(f)
         if len(samples) < 2 and nt:
